@@ -5,11 +5,6 @@ import (
 	"math/big"
 	"math/rand"
 
-	"github.com/cosmos/cosmos-sdk/types/query"
-
-	dispatchercomp "github.com/noble-assets/orbiter/v2/keeper/component/dispatcher"
-	dispatchertypes "github.com/noble-assets/orbiter/v2/types/component/dispatcher"
-
 	"orbverif/checks"
 	"orbverif/run"
 	"orbverif/spec"
@@ -17,55 +12,19 @@ import (
 )
 
 func main() {
-	l, err := checks.NewLab(world.Config{Channels: 4})
+	l, err := checks.NewLab(world.Config{})
 	if err != nil {
 		panic(err)
 	}
 	r := rand.New(rand.NewSource(1))
 	ctx, _ := l.Base.CacheContext()
-	for i := 0; i < 80; i++ {
-		d := l.PickDest(r, world.USDC)
-		t := l.NewTransfer(r, world.USDC, big.NewInt(1000), &spec.Spec{Route: d.Make(r)})
-		o := run.Do(l.W, ctx, t, run.Mode{Kind: "H"})
-		_ = o
-	}
-	q := dispatchercomp.NewQueryServer(l.W.App.OrbiterKeeper.Dispatcher())
-	for _, rev := range []bool{false, true} {
-		var key []byte
-		for p := 0; p < 60; p++ {
-			resp, err := q.DispatchedCountsBySourceProtocolID(ctx, &dispatchertypes.QueryDispatchedCountsByProtocolIDRequest{ProtocolId: "PROTOCOL_IBC",
-				Pagination: &query.PageRequest{Key: key, Limit: 1, Reverse: rev}})
-			if err != nil {
-				fmt.Println("err", err)
-				break
-			}
-			for _, c := range resp.Counts {
-				fmt.Printf("  rev=%v page %d: %s|%s -> %d|%s = %d\n", rev, p, c.SourceId.ProtocolId, c.SourceId.CounterpartyId, c.DestinationId.ProtocolId, c.DestinationId.CounterpartyId, c.Count)
-			}
-			fmt.Printf("  next=%x\n", resp.Pagination.NextKey)
-			if len(resp.Pagination.NextKey) == 0 {
-				break
-			}
-			key = resp.Pagination.NextKey
-		}
-	}
-	for _, rev := range []bool{false, true} {
-		var key []byte
-		for p := 0; p < 60; p++ {
-			resp, err := q.DispatchedAmountsBySourceProtocolID(ctx, &dispatchertypes.QueryDispatchedAmountsByProtocolIDRequest{ProtocolId: "PROTOCOL_IBC",
-				Pagination: &query.PageRequest{Key: key, Limit: 1, Reverse: rev}})
-			if err != nil {
-				fmt.Println("err", err)
-				break
-			}
-			for _, c := range resp.Amounts {
-				fmt.Printf("  AMT rev=%v page %d: %s|%s -> %d|%s %s\n", rev, p, c.SourceId.ProtocolId, c.SourceId.CounterpartyId, c.DestinationId.ProtocolId, c.DestinationId.CounterpartyId, c.Denom)
-			}
-			fmt.Printf("  next=%x\n", resp.Pagination.NextKey)
-			if len(resp.Pagination.NextKey) == 0 {
-				break
-			}
-			key = resp.Pagination.NextKey
-		}
-	}
+	d := l.PickDest(r, world.USDC)
+	// step 1: fee recipient = dust collector address
+	s := &spec.Spec{HasFee: true, Fees: []spec.Fee{{Recipient: world.DustAddr().String(), IsBPS: true, BPS: 10}}, Route: d.Make(r)}
+	o := run.Do(l.W, ctx, l.NewTransfer(r, world.USDC, big.NewInt(1_000_000), s), run.Mode{Kind: "H"})
+	fmt.Println("step1:", o.Res.String(), o.Delta)
+	// step 2: deposit + ordinary transfer
+	fmt.Println("deposit:", checks.Deposit(l.W, ctx, l.W.K("carol"), world.USDC, big.NewInt(5)))
+	o = run.Do(l.W, ctx, l.NewTransfer(r, world.USDC, big.NewInt(1_000_000), &spec.Spec{Route: d.Make(r)}), run.Mode{Kind: "H"})
+	fmt.Println("step2:", o.Res.String(), o.Res.PanicAt)
 }
